@@ -42,6 +42,7 @@ func c08sScenario(p c08sParams, bound int) vh.SScenario {
 		results := make([]reqResult, len(p.Modes))
 		done := make([]bool, len(p.Modes))
 		recovered := ""
+		premature := ""
 		x.Check = func(v vrt.Verdict) (string, string, string, bool) {
 			out := ""
 			for i := range results {
@@ -55,6 +56,9 @@ func c08sScenario(p c08sParams, bound int) vh.SScenario {
 				if !d {
 					return out, "C08/conc/request-never-returned", fmt.Sprintf("request %d (%s) never returned", i, p.Modes[i]), true
 				}
+			}
+			if premature != "" {
+				return out, "C08/conc/rejected-request-counted-against-the-breaker", premature, true
 			}
 			if recovered != "closed" {
 				return out, "C08/conc/no-recovery-after-concurrent-transitions", "after the concurrent requests and a healthy backend the breaker did not close: " + recovered, true
@@ -74,6 +78,15 @@ func c08sScenario(p c08sParams, bound int) vh.SScenario {
 		}
 		s.Join(ths...)
 		s.Branch(false)
+		allOK := true
+		for _, m := range p.Modes {
+			if m != "ok" {
+				allOK = false
+			}
+		}
+		if allOK && k.lb.circuitBreaker.State() == circuitbreaker.StateOpen {
+			premature = fmt.Sprintf("every concurrent request succeeded (or was turned away by the breaker itself), yet the breaker is OPEN afterwards (start %s)", p.Start)
+		}
 		// recovery script
 		st.mode = "ok"
 		s.AdvanceQuiet(3100 * time.Millisecond)
@@ -95,10 +108,13 @@ func c08sScenarios() []vh.SScenario {
 		bound = 3
 	}
 	var out []vh.SScenario
-	pairs := [][]string{{"abort", "abort"}, {"500", "abort"}, {"ok", "abort"}, {"500", "500"}, {"ok", "500"}}
+	pairs := [][]string{{"abort", "abort"}, {"500", "abort"}, {"ok", "abort"}, {"500", "500"}, {"ok", "500"}, {"ok", "ok"}, {"ok", "ok", "ok"}}
 	for _, start := range []string{"closed", "open-expired"} {
 		for _, c := range [][3]int{{1, 1, 1}, {2, 2, 1}, {1, 2, 2}} {
 			for _, m := range pairs {
+				if len(m) == 3 && (start == "closed" || c != [3]int{1, 1, 1}) {
+					continue // the triple only where a trial can be in flight while others arrive
+				}
 				out = append(out, c08sScenario(c08sParams{FT: c[0], ST: c[1], MR: c[2], Start: start, Modes: m}, bound))
 			}
 		}
